@@ -3,7 +3,10 @@
 package leveldb
 
 import (
+	"context"
 	"sync/atomic"
+
+	"github.com/multiversx/mx-chain-core-go/core/closing"
 
 	"github.com/syndtr/goleveldb/leveldb"
 	"github.com/syndtr/goleveldb/leveldb/opt"
@@ -28,4 +31,49 @@ func verifPoint(id string) {
 // (verification harness only: crash-image recording through a wrapped storage)
 func VerifOpenStorage(stor storage.Storage) (*leveldb.DB, error) {
 	return leveldb.Open(stor, &opt.Options{BlockCacheCapacity: -1, OpenFilesCacheCapacity: 10})
+}
+
+// VerifNewDBWithStorage is NewDB over a caller-provided goleveldb storage (verification harness only)
+func VerifNewDBWithStorage(stor storage.Storage, batchDelaySeconds int, maxBatchSize int) (*DB, error) {
+	db, err := VerifOpenStorage(stor)
+	if err != nil {
+		return nil, err
+	}
+
+	ctx, cancel := context.WithCancel(context.Background())
+	dbStore := &DB{
+		baseLevelDb:       &baseLevelDb{db: db, path: "verif"},
+		maxBatchSize:      maxBatchSize,
+		batchDelaySeconds: batchDelaySeconds,
+		sizeBatch:         0,
+		cancel:            cancel,
+	}
+	dbStore.batch = dbStore.createBatch()
+	go dbStore.batchTimeoutHandle(ctx)
+
+	return dbStore, nil
+}
+
+// VerifNewSerialDBWithStorage is NewSerialDB over a caller-provided goleveldb storage (verification harness only)
+func VerifNewSerialDBWithStorage(stor storage.Storage, batchDelaySeconds int, maxBatchSize int) (*SerialDB, error) {
+	db, err := VerifOpenStorage(stor)
+	if err != nil {
+		return nil, err
+	}
+
+	ctx, cancel := context.WithCancel(context.Background())
+	dbStore := &SerialDB{
+		baseLevelDb:       &baseLevelDb{db: db, path: "verif"},
+		maxBatchSize:      maxBatchSize,
+		batchDelaySeconds: batchDelaySeconds,
+		sizeBatch:         0,
+		dbAccess:          make(chan serialQueryer),
+		cancel:            cancel,
+		closer:            closing.NewSafeChanCloser(),
+	}
+	dbStore.batch = NewBatch()
+	go dbStore.batchTimeoutHandle(ctx)
+	go dbStore.processLoop(ctx)
+
+	return dbStore, nil
 }
